@@ -7,6 +7,7 @@ package app
 
 import (
 	"context"
+	"os"
 	"crypto/tls"
 	"encoding/json"
 	"fmt"
@@ -114,6 +115,25 @@ func (raceHarness) Shrink(spec any) []any {
 	return out
 }
 
+// authInTime: is the common path fast and clean enough for the 10 s authentication
+// deadline to be ample? (1.5 round trips are needed; on a slow, lossy path
+// retransmission timers alone can use up the 10 s - that is not C09's business.)
+func authInTime(sp raceSpec, c *quic.Conn, unet *verifsim.UDPNet) bool {
+	if c == nil {
+		return false
+	}
+	p := unet.PathOf(c.RemoteAddr())
+	if p == nil {
+		return false
+	}
+	i := unet.IndexOf(p)
+	if i < 0 || i >= len(sp.Paths) {
+		return false
+	}
+	rtt, loss := sp.Paths[i].UpMs+sp.Paths[i].DownMs, sp.Paths[i].LossPm
+	return (loss == 0 && rtt <= 3000) || (loss <= 100 && rtt <= 200)
+}
+
 var raceTLSOnce sync.Once
 var raceServerTLS *tls.Config
 
@@ -122,6 +142,9 @@ func (raceHarness) Run(spec any) (res verifsim.RunResult) {
 	res.Counters = map[string]int64{}
 	raceTLSOnce.Do(func() { raceServerTLS = quictransport.ServerConfig() }) // key generation outside the bubble
 	logger := slog.New(slog.NewTextHandler(io.Discard, nil))
+	if os.Getenv("VERIF_DBG") != "" {
+		logger = slog.New(slog.NewTextHandler(os.Stderr, &slog.HandlerOptions{Level: slog.LevelDebug}))
+	}
 	var viol []*verifsim.Violation
 	addV := func(class, sig, detail string) {
 		viol = append(viol, &verifsim.Violation{Class: class, Signature: sig, Detail: detail})
@@ -262,7 +285,8 @@ func (raceHarness) Run(spec any) (res verifsim.RunResult) {
 			usable := 0
 			for _, p := range sp.Paths {
 				// (a round trip near quic-go's 5 s handshake idle timeout may legitimately fail)
-				if !p.Blackhole && p.UpMs+p.DownMs <= 3000 {
+				// ... and so may a handshake on a lossy path (every retransmission can be lost)
+				if !p.Blackhole && p.UpMs+p.DownMs <= 3000 && p.LossPm == 0 {
 					usable++
 				}
 			}
@@ -276,7 +300,7 @@ func (raceHarness) Run(spec any) (res verifsim.RunResult) {
 				res.Counters["dial_succeeded"]++
 				if dp != ap {
 					addV("split-connection", "dialer-and-acceptor-on-different-connections", fmt.Sprintf("the dialing side uses %s, the accepting side committed to %s (paths %+v); authentication: dialer=%v acceptor=%v", dp, ap, sp.Paths, dialAuth, acceptAuth))
-				} else if dialAuth != nil || acceptAuth != nil {
+				} else if (dialAuth != nil || acceptAuth != nil) && authInTime(sp, dialed, unet) {
 					addV("auth-failed-on-common-connection", "auth", fmt.Sprintf("both sides are on %s but authentication failed: dialer=%v acceptor=%v", dp, dialAuth, acceptAuth))
 				}
 				// every other connection the listener completed must have been closed by the dialer
@@ -289,6 +313,12 @@ func (raceHarness) Run(spec any) (res verifsim.RunResult) {
 					select {
 					case <-c.Context().Done():
 					default:
+						if pp := unet.PathOf(c.RemoteAddr()); pp != nil && pp.LossPm > 0 {
+							// the dialer's CONNECTION_CLOSE is sent once; on a lossy path it may
+							// simply not have arrived: not judged
+							res.Counters["open_stray_on_lossy_path_not_judged"]++
+							continue
+						}
 						open++
 						// what did the dialing side do with its attempt on this path?
 						st := "completed-on-dialer-but-not-closed"
